@@ -330,6 +330,71 @@ theorem parseB_render (o : Op3) (l r : BT) (h : BOk (.op o l r)) (nested : Bool)
   have := parseB_render_aux _ h o l r rfl fuel 0 0 nested hf
   simpa [sp] using this
 
+/-- the scan of the text as `parseNestedStatementCombination` passes it (symbol in front), any fuel -/
+theorem detectB_with_symbol (hdr : Str) (o : Op3) (l r : BT) (h : BOk (.op o l r)) (hb : BPlain hdr) (fuel : Nat) :
+    ∃ rest, detect '{' '}' fuel (hdr ++ renderB (.op o l r)) = .ok ([bndB o l r hdr.length] :: rest) (hdr ++ renderB (.op o l r)) := by
+  have h1 : Validate.parCount '{' '}' (hdr ++ renderB (.op o l r)) 0 = 0 := by
+    rw [parCountB_nobrace _ _ _ hb.noBrace]
+    have := parCountB_render _ h [] 0
+    simpa [Validate.parCount] using this
+  obtain ⟨lm', h2, hE⟩ := scan_renderB _ h [] (0 + hdr.length) {} (by simp) rfl
+  have h3 : scan '{' '}' (hdr ++ renderB (.op o l r)) 0 {} = .done lm' := by
+    have e : hdr ++ renderB (.op o l r) = hdr ++ (renderB (.op o l r) ++ []) := by simp
+    rw [e, scan_plainB _ _ _ _ hb, h2, scan]
+  have hl0 : lm'[0]? = some [bndB o l r hdr.length] := by
+    have := hE.at_
+    simp only [List.length_nil, List.getElem?_nil, Option.getD_none, List.nil_append, Nat.zero_add, entsB_op] at this
+    exact some_of_getD_append lm' 0 [] _ (by simpa using this)
+  obtain ⟨es0, rest, hlm⟩ : ∃ es0 rest, lm' = es0 :: rest := by
+    cases lm' with
+    | nil => simp at hl0
+    | cons x xs => exact ⟨x, xs, rfl⟩
+  subst hlm
+  simp only [List.getElem?_cons_zero, Option.some.injEq] at hl0
+  subst hl0
+  refine ⟨rest, ?_⟩
+  rw [detect]
+  simp only [h1, h3]
+  simp
+
+/-- what is built from that level map: the written tree, the symbol as shared left text of the root -/
+theorem afterDetectB_with_symbol (hdr : Str) (o : Op3) (l r : BT) (hl : BOk l) (hr : BOk r) (hh : SWord hdr)
+    (nested : Bool) (f : Nat) (hf : depthB (.op o l r) ≤ f + 2) (rest : LM) :
+    afterDetect '{' '}' (parse true (f+1)) nested (.ok ([bndB o l r hdr.length] :: rest) (hdr ++ renderB (.op o l r)))
+      = .res ⟨.comb o.str [hdr] [] (treeOfB l) (treeOfB r), hdr ++ renderB (.op o l r), cNoError⟩ := by
+  have hdl : 1 ≤ depthB l := by cases l <;> simp [depthB]
+  simp only [depthB] at hf
+  have hbr : (o.br).length = o.str.length + 2 := by simp [Op3.br]
+  have hsh : extractShared (hdr ++ renderB (.op o l r) ++ []) ([bndB o l r hdr.length] :: rest) 0 0
+      [bndB o l r hdr.length] (bndB o l r hdr.length) = ([hdr], []) := by
+    have hI1 : hdr ++ renderB (.op o l r) ++ [] = (hdr ++ ['{']) ++ (renderB l ++ ' ' :: o.br ++ ' ' :: renderB r ++ ['}']) := by
+      simp [renderB]
+    have hI2 : hdr ++ renderB (.op o l r) ++ [] = (hdr ++ '{' :: renderB l ++ ' ' :: o.br ++ ' ' :: renderB r) ++ ['}'] := by
+      simp [renderB]
+    have htake : (hdr ++ renderB (.op o l r) ++ []).take (hdr.length + 1) = hdr ++ ['{'] := by
+      rw [hI1, List.take_left' (by simp)]
+    have hdrop : (hdr ++ renderB (.op o l r) ++ []).drop (hdr.length + (renderB l).length + (renderB r).length + o.str.length + 5)
+        = ['}'] := by
+      rw [hI2, List.drop_left' (by simp [hbr]; omega)]
+    obtain ⟨c, u, d, v, ht, hr', hwc, hic, hwd, hid⟩ := hh.split
+    have e1 : cleanShared (hdr ++ ['{']) = [hdr] := by
+      have t1 : trimBoth isIgnoredShared (hdr ++ ['{']) = hdr := by
+        have := trimBoth_core isIgnoredShared [] hdr ['{'] (by simp) (by simp [isIgnoredShared]) c u ht hic d v hr' hid
+        simpa using this
+      have t2 : trimWs hdr = hdr := by
+        have := trimBoth_core isWs [] hdr [] (by simp) (by simp) c u ht hwc d v hr' hwd
+        simpa [trimWs] using this
+      unfold cleanShared
+      rw [t1, t2]
+      simp [hh.ne]
+    have e2 : cleanShared ['}'] = [] := by simpa [sp] using cleanShared_rightB 0
+    simp only [extractShared, enclosing, bndB, htake, hdrop, if_true, Nat.zero_add,
+      List.getElem?_cons_succ, List.getElem?_nil, e1, e2]
+  have := afterDetectB_gen o l r hl hr f hdr [] nested rest [hdr] []
+    (fun o' l' r' h a b => parseB_render_aux l hl o' l' r' h (f+1) a b true (by omega))
+    (fun o' l' r' h a b => parseB_render_aux r hr o' l' r' h (f+1) a b true (by omega)) hsh
+  simpa using this
+
 /-- **The text as `parseNestedStatementCombination` passes it**: the component symbol in front of
     the braced combination. The tree is the written one; the symbol ends up as shared left text
     of the root (where the caller reads the component type from the leaves, not from it). -/
@@ -339,66 +404,12 @@ theorem parseB_with_symbol (hdr : Str) (o : Op3) (l r : BT) (h : BOk (.op o l r)
       = .res ⟨.comb o.str [hdr] [] (treeOfB l) (treeOfB r), hdr ++ renderB (.op o l r), cNoError⟩ := by
   cases h with
   | op _ _ _ hl hr =>
-    have hbk : BOk (.op o l r) := .op o l r hl hr
     have hdl : 1 ≤ depthB l := by cases l <;> simp [depthB]
-    simp only [depthB] at hf
+    have hf' := hf
+    simp only [depthB] at hf'
     obtain ⟨f, rfl⟩ : ∃ f, fuel = f + 2 := ⟨fuel - 2, by omega⟩
-    -- the scan
-    have h1 : Validate.parCount '{' '}' (hdr ++ renderB (.op o l r)) 0 = 0 := by
-      rw [parCountB_nobrace _ _ _ hb.noBrace]
-      have := parCountB_render _ hbk [] 0
-      simpa [Validate.parCount] using this
-    obtain ⟨lm', h2, hE⟩ := scan_renderB _ hbk [] (0 + hdr.length) {} (by simp) rfl
-    have h3 : scan '{' '}' (hdr ++ renderB (.op o l r)) 0 {} = .done lm' := by
-      have e : hdr ++ renderB (.op o l r) = hdr ++ (renderB (.op o l r) ++ []) := by simp
-      rw [e, scan_plainB _ _ _ _ hb, h2, scan]
-    have hd : detect '{' '}' ((hdr ++ renderB (.op o l r)).length + 1) (hdr ++ renderB (.op o l r))
-        = .ok lm' (hdr ++ renderB (.op o l r)) := by
-      rw [detect]
-      simp only [h1, h3]
-      simp
-    have hl0 : lm'[0]? = some [bndB o l r hdr.length] := by
-      have := hE.at_
-      simp only [List.length_nil, List.getElem?_nil, Option.getD_none, List.nil_append, Nat.zero_add, entsB_op] at this
-      exact some_of_getD_append lm' 0 [] _ (by simpa using this)
-    obtain ⟨es0, rest, hlm⟩ : ∃ es0 rest, lm' = es0 :: rest := by
-      cases lm' with
-      | nil => simp at hl0
-      | cons x xs => exact ⟨x, xs, rfl⟩
-    subst hlm
-    simp only [List.getElem?_cons_zero, Option.some.injEq] at hl0
-    subst hl0
+    obtain ⟨rest, hd⟩ := detectB_with_symbol hdr o l r (.op o l r hl hr) hb ((hdr ++ renderB (.op o l r)).length + 1)
     rw [parseB_unfold, hd]
-    -- shared text: the symbol on the left, nothing on the right
-    have hbr : (o.br).length = o.str.length + 2 := by simp [Op3.br]
-    have hsh : extractShared (hdr ++ renderB (.op o l r) ++ []) ([bndB o l r hdr.length] :: rest) 0 0
-        [bndB o l r hdr.length] (bndB o l r hdr.length) = ([hdr], []) := by
-      have hI1 : hdr ++ renderB (.op o l r) ++ [] = (hdr ++ ['{']) ++ (renderB l ++ ' ' :: o.br ++ ' ' :: renderB r ++ ['}']) := by
-        simp [renderB]
-      have hI2 : hdr ++ renderB (.op o l r) ++ [] = (hdr ++ '{' :: renderB l ++ ' ' :: o.br ++ ' ' :: renderB r) ++ ['}'] := by
-        simp [renderB]
-      have htake : (hdr ++ renderB (.op o l r) ++ []).take (hdr.length + 1) = hdr ++ ['{'] := by
-        rw [hI1, List.take_left' (by simp)]
-      have hdrop : (hdr ++ renderB (.op o l r) ++ []).drop (hdr.length + (renderB l).length + (renderB r).length + o.str.length + 5)
-          = ['}'] := by
-        rw [hI2, List.drop_left' (by simp [hbr]; omega)]
-      obtain ⟨c, u, d, v, ht, hr', hwc, hic, hwd, hid⟩ := hh.split
-      have e1 : cleanShared (hdr ++ ['{']) = [hdr] := by
-        have t1 : trimBoth isIgnoredShared (hdr ++ ['{']) = hdr := by
-          have := trimBoth_core isIgnoredShared [] hdr ['{'] (by simp) (by simp [isIgnoredShared]) c u ht hic d v hr' hid
-          simpa using this
-        have t2 : trimWs hdr = hdr := by
-          have := trimBoth_core isWs [] hdr [] (by simp) (by simp) c u ht hwc d v hr' hwd
-          simpa [trimWs] using this
-        unfold cleanShared
-        rw [t1, t2]
-        simp [hh.ne]
-      have e2 : cleanShared ['}'] = [] := by simpa [sp] using cleanShared_rightB 0
-      simp only [extractShared, enclosing, bndB, htake, hdrop, if_true, Nat.zero_add,
-        List.getElem?_cons_succ, List.getElem?_nil, e1, e2]
-    have := afterDetectB_gen o l r hl hr f hdr [] nested rest [hdr] []
-      (fun o' l' r' h a b => parseB_render_aux l hl o' l' r' h (f+1) a b true (by omega))
-      (fun o' l' r' h a b => parseB_render_aux r hr o' l' r' h (f+1) a b true (by omega)) hsh
-    simpa using this
+    exact afterDetectB_with_symbol hdr o l r hl hr hh nested f hf rest
 
 end IGVerif.Combo
